@@ -83,10 +83,24 @@ fn registry(root: &Path) -> String {
     let mut src = String::new();
     let mut n = 0;
     let mut args_types: Vec<(String, String)> = vec![];
+    let mut no_serde: Vec<(String, String)> = vec![];
     writeln!(src, "pub fn registry() -> Vec<TypeOps> {{ vec![").unwrap();
     for modfile in sorted_files(&root.join("write-fonts/src/tables")) {
         let module = modfile.file_stem().unwrap().to_string_lossy().to_string();
         let text = std::fs::read_to_string(&modfile).unwrap();
+        // hand-written `impl FontRead for X` next to the include (gsub/gpos lookup enums and lists);
+        // glyf's Glyph/SimpleGlyph/CompositeGlyph have no serde derive → listed as skipped
+        {
+            let t: String = text.split_whitespace().collect::<Vec<_>>().join(" ");
+            for name in idents_after(&t, "impl<'a> FontRead<'a> for ") {
+                if module == "glyf" {
+                    no_serde.push((module.clone(), name.to_string()));
+                } else {
+                    writeln!(src, "  ops::<write_fonts::tables::{module}::{name}>({module:?}, {name:?}, None),").unwrap();
+                    n += 1;
+                }
+            }
+        }
         for inc in idents_after(&text, "generated/generated_") {
             let gen = root.join(format!("write-fonts/generated/generated_{inc}.rs"));
             let Ok(g) = std::fs::read_to_string(&gen) else {
@@ -150,6 +164,12 @@ fn registry(root: &Path) -> String {
     .unwrap();
     writeln!(src, "pub static READ_WITH_ARGS_TYPES: &[(&str, &str)] = &[").unwrap();
     for (m, t) in &args_types {
+        writeln!(src, "  ({m:?}, {t:?}),").unwrap();
+    }
+    writeln!(src, "];").unwrap();
+    writeln!(src, "/// FontRead types without serde derives (cannot be enumerated by X2)").unwrap();
+    writeln!(src, "pub static NO_SERDE_TYPES: &[(&str, &str)] = &[").unwrap();
+    for (m, t) in &no_serde {
         writeln!(src, "  ({m:?}, {t:?}),").unwrap();
     }
     writeln!(src, "];").unwrap();
@@ -333,6 +353,7 @@ fn schema(root: &Path) -> Value {
     let mut flags = vec![];
     let mut formats = vec![];
     let mut enums = vec![];
+    let mut groups = vec![];
     for f in sorted_files(&root.join("resources/codegen_inputs")) {
         let file = f.file_stem().unwrap().to_string_lossy().to_string();
         if file.starts_with("test_") {
@@ -415,13 +436,26 @@ fn schema(root: &Path) -> Value {
                     }
                 }
                 "group" => {
-                    // `group Name(Generic, $field) { 1 => Variant(Type), … }` — a lookup-type
-                    // dispatch; carries no count/version/flag relation
-                    while p.i < p.s.len() && p.s[p.i] != b'{' {
-                        p.i += 1;
+                    // `group Name(Inner, $field) { 1 => Variant(Type), … }` — the variant is selected by
+                    // the value of `$field` of the Inner table
+                    let name = p.ident();
+                    assert!(p.eat(b'('));
+                    let head = p.balanced(b'(', b')');
+                    let mut hs = head.split(',').map(|x| x.trim().trim_start_matches('$').to_string());
+                    let inner = hs.next().unwrap_or_default();
+                    let field = hs.next().unwrap_or_default();
+                    assert!(p.eat(b'{'));
+                    let body = p.balanced(b'{', b'}');
+                    let mut variants = vec![];
+                    for line in body.split(',') {
+                        if let Some((n, rest)) = line.split_once("=>") {
+                            let vname = rest.trim().split('(').next().unwrap_or("").trim().to_string();
+                            if let Some(n) = parse_num(n) {
+                                variants.push(json!({"value": n, "name": vname}));
+                            }
+                        }
                     }
-                    p.i += 1;
-                    p.balanced(b'{', b'}');
+                    groups.push(json!({"file": file, "name": name, "inner": inner, "field": field, "variants": variants}));
                 }
                 "format" => {
                     // `format u16 Name {` or `format DeltaFormat@4 Name {`
@@ -449,7 +483,7 @@ fn schema(root: &Path) -> Value {
             }
         }
     }
-    json!({"structs": structs, "flags": flags, "enums": enums, "formats": formats})
+    json!({"structs": structs, "flags": flags, "enums": enums, "formats": formats, "groups": groups})
 }
 
 // ---------------------------------------------------------------------------------------------
